@@ -21,20 +21,22 @@ inline int hash(int x)
 
 inline int hash(const String& s)
 {
-	int h = 0, n = s.length();
+	unsigned h = 0; // unsigned: the multiplication wraps around on long keys (signed overflow is undefined)
+	int n = s.length();
 	const char* p = s;
 	for(int i=0; i<n; i++)
-		h = 33*h + p[i];
-	return h;
+		h = 33*h + (unsigned)p[i];
+	return (int)h;
 }
 
 inline int hash(const Array<byte>& s)
 {
-	int h = 0, n = s.length();
+	unsigned h = 0;
+	int n = s.length();
 	const byte* p = s.data();
 	for (int i = 0; i<n; i++)
 		h = 33 * h + p[i];
-	return h;
+	return (int)h;
 }
 
 template<typename T>
